@@ -185,9 +185,31 @@ C14Cases(f) == { [fmt |-> f, items |-> fl, lay |-> l,
                   fl \in SelFiles(f, MaxSelItems), l \in C14Lays(f), lim \in Limits, pas \in Passes,
                   pre \in BOOLEAN, chs \in ChosenSets }
 
+\* Entries on both sides of every allocation threshold of the decoders -- bufio.Reader's 4096-byte buffer (smaller reads
+\* are copied out of it, larger ones go straight to the destination), 64 KiB (bufio.Scanner's limit, a natural "large"
+\* mark), readSized's maxPreallocSize = 1 MiB (1048576 is the last pre-allocated size, above it the read is
+\* incremental) -- with DIFFERENT contents, two or three alive at once: every ordered pair of sizes, and the pairs
+\* beyond 1 MiB also with a small entry in between; plain and hostile layout, streaming and preloaded.
+BigSizes == {"5000", "60000", "70000", "1048576", "1048577", "1572864"}
+Huge     == {"1048577", "1572864"}
+BigE(f, n) ==
+    LET b == (IF f = "json" THEN "{T" ELSE "{B") \o n \o "}"
+    IN  CASE f = "uripost" -> E("POST", "/big?n=" \o n, "", <<>>, b, "big  " \o n)
+          [] f = "raw"     -> E("POST", "/big?n=" \o n, "h1", <<<<"Content-Length", n>>>>, b, "big  " \o n)
+          [] f = "json"    -> E("POST", "/big?n=" \o n, "h1", <<<<"X-B", "v 1">>>>, b, "big  " \o n)
+SmallOf(f) == CHOOSE e \in Pool(f) : e.body = "616263"
+BigFiles(f) == {<<EntryItem(BigE(f, a)), EntryItem(BigE(f, b))>> : a \in BigSizes, b \in BigSizes}
+               \cup {<<EntryItem(BigE(f, a)), EntryItem(SmallOf(f)), EntryItem(BigE(f, b))>> : a \in Huge, b \in Huge}
+C07Big(f) == IF f = "uri" THEN {} ELSE
+    LET plain == IF f = "json" THEN PlainLay(f, "line") ELSE PlainLay(f, "text")
+        hard  == IF f = "json" THEN HardLay(f, "array") ELSE HardLay(f, "text")
+        Lays(pre) == IF Quick THEN {IF pre THEN hard ELSE plain} ELSE {plain, hard}
+    IN  UNION { { [fmt |-> f, items |-> fl, lay |-> l, conf |-> Conf(0, 0, pre, <<>>, 2 * Len(fl) + 1)] :
+                    fl \in BigFiles(f), l \in Lays(pre) } : pre \in BOOLEAN }
+
 ExportSet(S, path) == ndJsonSerialize(path, SetToSeq(S))
 
-ExportC07 == \A f \in Formats : ExportSet(C07Cases(f) \cup C07Mixed(f), IOEnv.VERIF_OUT \o "." \o f)
+ExportC07 == \A f \in Formats : ExportSet(C07Cases(f) \cup C07Mixed(f) \cup C07Big(f), IOEnv.VERIF_OUT \o "." \o f)
 ExportC14 == \A f \in Formats : ExportSet(C14Cases(f), IOEnv.VERIF_OUT \o "." \o f)
 
 \* export configs: a single dummy state; the export happens while TLC evaluates the invariant on it
